@@ -108,6 +108,8 @@ theorem runBody_growsS (U : Universe) (s : St) (x : Gen) : GrowsS s (runBody U s
       · exact (k0.trans k1).trans (push_growsS _ _ (fun _ => rfl))
       · exact (k0.trans k1).trans
           ⟨fun y => by simp [nStart, List.countP_cons, isStarted], [], by simp, by simp⟩
+      · exact (k0.trans k1).trans
+          ⟨fun y => by simp [nStart, List.countP_cons, isStarted], [], by simp, by simp⟩
 
 theorem nStart_afterBody (b : St × Next) (g : Gen) (p : Nat) (x : Gen) :
     nStart (afterBody b g p) x = nStart b.1 x := by
@@ -115,10 +117,11 @@ theorem nStart_afterBody (b : St × Next) (g : Gen) (p : Nat) (x : Gen) :
   split
   · simp [nStart, finishHead, dropHead, List.countP_cons, isStarted]
   · split <;> simp [nStart, pauseHead, rotHead]
+  · rfl
 
 /-- what a turn puts behind the sentinel: generators started by the body, then possibly the
 generator itself (rotated) -/
-theorem turn_order (U : Universe) {c : St} (I : Inv c) {g : Gen} {pend : List Gen}
+theorem turn_order (U : Universe) [NoRaise U] {c : St} (I : Inv c) {g : Gen} {pend : List Gen}
     {done : List (Option Gen)} (h : Split c (g :: pend) done) :
     ∃ ex tail, Split (turn U c) pend (done ++ ex ++ tail) ∧ (tail = [] ∨ tail = [some g]) ∧
       (∀ e ∈ ex, ∃ x, e = some x ∧ nStart c x < nStart (turn U c) x) ∧
@@ -151,13 +154,14 @@ theorem turn_order (U : Universe) {c : St} (I : Inv c) {g : Gen} {pend : List Ge
         · intro e he; obtain ⟨x, hx, hlt⟩ := hex e he
           exact ⟨x, hx, by simpa [nStart, rotHead] using hlt⟩
         · intro x; have := G.mono x; simpa [nStart, rotHead] using this
+    · rename_i e he; exact absurd he (runBody_no_crash U c g e)
 
 /-- not started since the reference state `c0` -/
 def unrestarted (c0 c : St) : Option Gen → Bool
   | some x => nStart c x == nStart c0 x
   | none => false
 
-theorem turns_order (U : Universe) (c0 : St) {c : St} (I : Inv c) {before0 before rest : List Gen}
+theorem turns_order (U : Universe) [NoRaise U] (c0 : St) {c : St} (I : Inv c) {before0 before rest : List Gen}
     {done : List (Option Gen)} (hm : ∀ x, nStart c0 x ≤ nStart c x)
     (h : Split c (before ++ rest) done)
     (hinv : (done.filter (unrestarted c0 c)).Sublist (before0.map some)) :
@@ -201,7 +205,7 @@ theorem turns_order (U : Universe) (c0 : St) {c : St} (I : Inv c) {before0 befor
 
 /-- **order.**  The generators that are in the deque after a frame and were not started during it
 appear there in the order in which the run loop met them (`pend`: the deque when the loop began). -/
-theorem process_order (U : Universe) {s : St} (T : Top s) (dt : Int) (hint : List Gen) :
+theorem process_order (U : Universe) [NoRaise U] {s : St} (T : Top s) (dt : Int) (hint : List Gen) :
     ∃ pend : List Gen, (wakePhase s dt hint).1.active = none :: pend.map some ∧
       (((process U s dt hint).1.active.filter
           (unrestarted s (process U s dt hint).1))).Sublist (pend.map some) := by
@@ -288,8 +292,9 @@ theorem runBody_steps (U : Universe) (s : St) (g : Gen) :
       split
       · simp [St.push, stepGens, h, hlt] at hsame ⊢; exact hsame
       · simp [stepGens, h, hlt] at hsame ⊢; exact hsame
+      · simp [stepGens, h, hlt] at hsame ⊢; exact hsame
 
-theorem turn_steps (U : Universe) {c : St} (I : Inv c) {g : Gen} {pend : List Gen}
+theorem turn_steps (U : Universe) [NoRaise U] {c : St} (I : Inv c) {g : Gen} {pend : List Gen}
     {done : List (Option Gen)} (h : Split c (g :: pend) done) :
     stepGens (turn U c).log =
       (if c.kill g = false ∧ hasCode U c g then [g] else []) ++ stepGens c.log := by
@@ -302,9 +307,10 @@ theorem turn_steps (U : Universe) {c : St} (I : Inv c) {g : Gen} {pend : List Ge
       split
       · simp [finishHead, dropHead, stepGens]
       · split <;> simp [pauseHead, rotHead]
+      · rfl
     rw [this, runBody_steps]; simp [hk]
 
-theorem turns_steps (U : Universe) {c : St} (I : Inv c) {before rest : List Gen}
+theorem turns_steps (U : Universe) [NoRaise U] {c : St} (I : Inv c) {before rest : List Gen}
     {done : List (Option Gen)} (h : Split c (before ++ rest) done) :
     ∃ ran : List Gen, ran.Sublist before ∧
       stepGens (turns U before.length c).log = ran.reverse ++ stepGens c.log := by
@@ -329,7 +335,7 @@ theorem turns_steps (U : Universe) {c : St} (I : Inv c) {before rest : List Gen}
 
 /-- **the execution log of a frame**: the bodies that run in a `process` call run in the order of
 the deque at the start of the run loop, each at most once -/
-theorem process_steps (U : Universe) {s : St} (T : Top s) (dt : Int) (hint : List Gen) :
+theorem process_steps (U : Universe) [NoRaise U] {s : St} (T : Top s) (dt : Int) (hint : List Gen) :
     ∃ pend ran : List Gen, (wakePhase s dt hint).1.active = none :: pend.map some ∧ pend.Nodup ∧
       ran.Sublist pend ∧ stepGens (process U s dt hint).1.log = ran.reverse ++ stepGens s.log := by
   obtain ⟨pend, hact, I1, hsp, hp⟩ := process_frame U T dt hint
@@ -345,7 +351,7 @@ theorem process_steps (U : Universe) {s : St} (T : Top s) (dt : Int) (hint : Lis
 
 def PcLog (s : St) : Prop := ∀ g, s.pc g = (stepGens s.log).count g
 
-theorem turn_pcLog (U : Universe) {c : St} (I : Inv c) {g : Gen} {pend : List Gen}
+theorem turn_pcLog (U : Universe) [NoRaise U] {c : St} (I : Inv c) {g : Gen} {pend : List Gen}
     {done : List (Option Gen)} (h : Split c (g :: pend) done) (P : PcLog c) : PcLog (turn U c) := by
   intro x
   rw [(turn_effect U I h x).1, turn_steps U I h, List.count_append, ← P x]
@@ -358,7 +364,7 @@ theorem turn_pcLog (U : Universe) {c : St} (I : Inv c) {g : Gen} {pend : List Ge
     · simp [hx, hr, List.count_cons, Ne.symm hx]
     · simp [hx, hr]
 
-theorem process_pcLog (U : Universe) {s : St} (T : Top s) (dt : Int) (hint : List Gen) (P : PcLog s) :
+theorem process_pcLog (U : Universe) [NoRaise U] {s : St} (T : Top s) (dt : Int) (hint : List Gen) (P : PcLog s) :
     PcLog (process U s dt hint).1 := by
   obtain ⟨pend, _, I1, hsp, hp⟩ := process_frame U T dt hint
   obtain ⟨w1, _, wlog, _⟩ := wake_frame T.inv dt hint
@@ -370,7 +376,7 @@ theorem process_pcLog (U : Universe) {s : St} (T : Top s) (dt : Int) (hint : Lis
   rw [hp]
   exact this P0
 
-theorem execOp_pcLog (U : Universe) {s : St} (T : Top s) (op : Op) (P : PcLog s) : PcLog (execOp U s op) := by
+theorem execOp_pcLog (U : Universe) [NoRaise U] {s : St} (T : Top s) (op : Op) (P : PcLog s) : PcLog (execOp U s op) := by
   cases op with
   | start h =>
     intro g
@@ -393,7 +399,7 @@ theorem execOp_pcLog (U : Universe) {s : St} (T : Top s) (op : Op) (P : PcLog s)
     have := process_pcLog U T dt hint P g
     simpa [execOp, St.push, stepGens] using this
 
-theorem run_pcLog (U : Universe) {s : St} (T : Top s) (ops : List Op) (P : PcLog s) :
+theorem run_pcLog (U : Universe) [NoRaise U] {s : St} (T : Top s) (ops : List Op) (P : PcLog s) :
     PcLog (run U s ops) := by
   induction ops generalizing s with
   | nil => exact P
